@@ -127,7 +127,8 @@ fn forms_for(shape: Shape) -> &'static [CpForm] {
     match shape {
         Shape::Named => &[CpForm::Same, CpForm::AsTuple, CpForm::SameIdx, CpForm::BareTuple, CpForm::AsStruct, CpForm::AsUnit],
         Shape::Tuple => &[CpForm::Same, CpForm::AsStruct, CpForm::BareTuple, CpForm::AsTuple, CpForm::AsUnit],
-        Shape::Unit => &[CpForm::AsUnit, CpForm::Same, CpForm::AsStruct, CpForm::AsTuple],
+        // (Unit, SameIdx): no hint + index #[ghosts] entries: a tuple counterpart filled from the ghosts alone (seed C01-02)
+        Shape::Unit => &[CpForm::AsUnit, CpForm::Same, CpForm::AsStruct, CpForm::AsTuple, CpForm::SameIdx],
     }
 }
 
@@ -179,7 +180,7 @@ pub fn gen(ctx: &mut Ctx, o: &Opts) -> Option<SCase> {
         // same-kind positional (tuple -> tuple): an ident rename is meaningless; index renames are allowed
         members.push(Mem { name, mi, marker: next_marker(), marker2: next_marker(), slot: None });
     }
-    if form == CpForm::SameIdx && members.iter().all(|m| m.mi.is_ghost()) {
+    if form == CpForm::SameIdx && shape != Shape::Unit && members.iter().all(|m| m.mi.is_ghost()) {
         return ctx.reject();
     }
     // struct-level ghosts entries (counterpart-only slots)
